@@ -311,11 +311,13 @@ func specLkAfter(kind, lk int) int {
 //@   at call debugPrintf#1: ghost $touched = true
 //@   at call debugPrintf#1: ghost $refreshed = false
 //@   at call lookup#1: ghost $refreshed = true
-//@   at call update#3: assert $touched ==> $refreshed
 // No fault: a pointer that was valid before the invalidation must not survive it.
 // When releaseLock has set havePtr, the pointer the counter is left with is one
 // looked up since, or nil (never the one into the mapping that may be gone).
+// (Stated before the quiescence assertion, which is a known finding: an assertion
+// is assumed once it has been checked, so the weaker one must come first.)
 //@   at call update#3: assert $touched ==> $refreshed || c.ptr.count == nil
+//@   at call update#3: assert $touched ==> $refreshed
 //@   modifies c.ptr, $ledger, $lost, $lk, $touched, $refreshed
 
 //@ contract (*Counter).invalidate
